@@ -2,6 +2,7 @@ package mpt
 
 import (
 	"fmt"
+	"github.com/0chain/common/core/util"
 	"time"
 
 	"verifmc/explore/seq"
@@ -168,6 +169,14 @@ func C01(tier rt.Tier) int {
 	}
 	for _, a := range runs {
 		runAlphabet(rep, a, time.Now().Add(per), nil)
+	}
+	{
+		// value sizes: every length of the small ranges, and the largest values the trie accepts
+		lens := spans(0, 300, 1000, 1050, 65530, 65540, util.MPTMaxAllowableNodeSize-1, util.MPTMaxAllowableNodeSize)
+		if tier == rt.Thorough {
+			lens = spans(0, 4200, 65500, 65600, 1<<20-4, 1<<20+4, util.MPTMaxAllowableNodeSize-3, util.MPTMaxAllowableNodeSize)
+		}
+		sizeSweep(rep, "map-behaviour", lens, []StoreKind{Mem, LevelP}, 1, nil, nil)
 	}
 	rep.Set("rule", "BFS over all histories of the listed alphabets on a fresh real trie per history (replay); after every operation: return value/error judged against map model, every alphabet path looked up (raw and decoded), full value iteration compared; states merged on (model content, root, version, pending change set, writable-store keys); non-trivial = distinct merged state")
 	rep.Assumption("RocksDB is replaced by an in-memory write-log stand-in (third_party/grocksdb); PNodeDB's own code is real")
